@@ -2,8 +2,13 @@ package sim
 
 import (
 	"fmt"
+	"runtime"
+	"strconv"
+	"strings"
+	"sync"
 	"sync/atomic"
 	"testing/synctest"
+	"time"
 )
 
 // concSched is the concurrent-mode scheduler (C20). Every client script is a
@@ -26,6 +31,11 @@ type concSched struct {
 	nLib     atomic.Int32 // spare tasks claimed by library goroutines
 	picks    []string
 	maxPicks int
+	holdSite string // seam whose callers are released last (a slow back end)
+	// extBlocked: library goroutines currently blocked outside the simulation
+	// (see settle); extSeen: how often that was the case at a scheduling point
+	extBlocked int
+	extSeen    int
 }
 
 const (
@@ -127,8 +137,9 @@ func (s *concSched) finish(t *ctask) {
 func (s *concSched) run() error {
 	raceDisable()
 	defer raceEnable()
+	var last *ctask
 	for n := 0; ; n++ {
-		synctest.Wait()
+		s.settle(last)
 		var cands []*ctask
 		lim := maxClients + int(s.nLib.Load())
 		for i := 0; i < lim && i < maxTasks; i++ {
@@ -140,13 +151,131 @@ func (s *concSched) run() error {
 		if len(cands) == 0 {
 			return nil
 		}
+		if s.holdSite != "" {
+			// a slow back end: tasks waiting at that seam proceed only when
+			// nobody else can
+			var rest []*ctask
+			for _, t := range cands {
+				if t.site.Load().(string) != s.holdSite {
+					rest = append(rest, t)
+				}
+			}
+			if len(rest) > 0 {
+				cands = rest
+			}
+		}
 		if n > s.maxPicks {
 			return fmt.Errorf("scheduler: more than %d picks", s.maxPicks)
 		}
 		t := cands[s.rng.Intn(len(cands))]
 		s.picks = append(s.picks, t.name+"@"+t.site.Load().(string))
+		t.parked.Store(false)
 		t.wake <- 1
+		last = t
 	}
+}
+
+// settle waits until the simulation is quiescent: every goroutine of the bubble
+// is parked at a seam, finished, or blocked.
+//
+// The normal case is synctest.Wait. It cannot be used while a library goroutine
+// is blocked on something the simulation does not own (a package-level channel
+// or a sync.Mutex whose holder is parked at a seam): such a goroutine is not
+// "durably" blocked and Wait would never return, although the simulated system
+// is perfectly alive - the holder only has to be scheduled. So the released
+// task is watched for a few real milliseconds first; when it neither parks nor
+// finishes, the goroutine states of the bubble are read from a stack dump, and
+// for as long as some goroutine is blocked outside the simulation quiescence is
+// decided from dumps ("nobody is running") instead of synctest.Wait. Which task
+// the scheduler releases next stays a function of the seed alone.
+func (s *concSched) settle(last *ctask) {
+	if last == nil && s.extBlocked == 0 {
+		synctest.Wait()
+		return
+	}
+	if s.extBlocked == 0 {
+		start := realTick.Load()
+		for !last.parked.Load() && !last.done.Load() {
+			if realTick.Load()-start >= 5 {
+				break
+			}
+			runtime.Gosched()
+		}
+		if last.parked.Load() || last.done.Load() {
+			synctest.Wait()
+			return
+		}
+	}
+	for spins := 0; ; spins++ {
+		active, ext := bubbleStates(s.driver)
+		if active == 0 {
+			if ext == 0 {
+				s.extBlocked = 0
+				synctest.Wait()
+				return
+			}
+			s.extBlocked = ext
+			s.extSeen++
+			return
+		}
+		start := realTick.Load()
+		for realTick.Load() == start {
+			runtime.Gosched()
+		}
+	}
+}
+
+// realTick counts real milliseconds; the goroutine lives outside every bubble.
+var (
+	realTick     atomic.Int64
+	realTickOnce sync.Once
+)
+
+func startRealTick() {
+	realTickOnce.Do(func() {
+		go func() {
+			for {
+				time.Sleep(time.Millisecond)
+				realTick.Add(1)
+			}
+		}()
+	})
+}
+
+// bubbleStates reads the state of every goroutine of the (only) synctest
+// bubble except the driver: how many are running or runnable, and how many
+// are blocked on something outside the bubble.
+func bubbleStates(driver uint64) (active, ext int) {
+	buf := make([]byte, 1<<20)
+	for {
+		n := runtime.Stack(buf, true)
+		if n < len(buf) {
+			buf = buf[:n]
+			break
+		}
+		buf = make([]byte, 2*len(buf))
+	}
+	// no fmt here: its sync.Pool would tie this race-disabled goroutine to the tasks
+	me := "goroutine " + strconv.FormatUint(driver, 10) + " "
+	for _, line := range strings.Split(string(buf), "\n") {
+		if !strings.HasPrefix(line, "goroutine ") || !strings.HasSuffix(line, "]:") || !strings.Contains(line, "synctest bubble") {
+			continue
+		}
+		if strings.HasPrefix(line, me) {
+			continue
+		}
+		i := strings.IndexByte(line, '[')
+		st := line[i+1:]
+		switch {
+		case strings.HasPrefix(st, "running"), strings.HasPrefix(st, "runnable"), strings.HasPrefix(st, "syscall"),
+			strings.HasPrefix(st, "copystack"), strings.HasPrefix(st, "preempted"), strings.HasPrefix(st, "idle"):
+			active++
+		case strings.Contains(st, "(durable)"):
+		default:
+			ext++
+		}
+	}
+	return
 }
 
 func (s *concSched) afterRequest(w *World) {}
